@@ -305,6 +305,29 @@ func genC20(e *emitter, tier string, seed uint64) {
 		e.note("flow." + kind + "." + strings.Fields(res)[0])
 		e.note(fmt.Sprintf("utxos.%d", nU))
 	}
+	// the payment UTXO exceeds the price by 1, 2, 3 … satoshis (the dummy output is then that small), at every position
+	for _, variant := range []string{"1", "2"} {
+		for _, over := range []uint64{1, 2, 3, 135, 136, 137} {
+			for pos := 0; pos < 3; pos++ {
+				seller, buyer := genKey(r), genKey(r)
+				price := uint64(1 + r.n(20000))
+				ou := mkU(seller, 1, p2pkhOf(seller))
+				us := []ordUTXO{mkU(buyer, 1+uint64(r.n(int(price))), p2pkhOf(buyer)), mkU(buyer, 1+uint64(r.n(int(price))), p2pkhOf(buyer)), mkU(buyer, 5000000, p2pkhOf(buyer))}
+				if variant == "2" {
+					us[0].u.Satoshis, us[1].u.Satoshis = uint64(1+r.n(900)), uint64(1+r.n(900))
+				}
+				pay := mkU(buyer, price+over, p2pkhOf(buyer))
+				us = append(us[:pos], append([]ordUTXO{pay}, us[pos:]...)...)
+				var ds []string
+				for _, u := range us {
+					ds = append(ds, descOrdUTXO(u))
+				}
+				res := e.run("C20.list", variant, feeQuotes[r.n(len(feeQuotes))], descOrdUTXO(ou), fmt.Sprintf("%d:%s", price, hexE(p2pkhOf(seller))),
+					strings.Join(ds, "|"), hexE(p2pkhOf(buyer)), hexE(p2pkhOf(buyer)), hexE(p2pkhOf(genKey(r))))
+				e.note("flow.small-remainder." + strings.Fields(res)[0])
+			}
+		}
+	}
 	// tight funding: what is left for the fee sweeps across the quoted fee, in steps smaller than one unlocking script,
 	// so that "covers the unsigned size but not the signed size" and "covers the fee but not a change output" are hit
 	step := 7
